@@ -61,6 +61,8 @@ class Gen(object):
         import collada
         from collada import asset
         r = self.rng
+        from vlib import prelude
+        prelude.touch()         # other objects were made and edited before this document
         doc = collada.Collada()
         self.doc = doc
         contributors = [asset.Contributor(author=r.choice([None, 'me', 'a b']), authoring_tool=r.choice([None, 'tool 1.0']),
@@ -74,7 +76,7 @@ class Gen(object):
             modified=datetime.datetime(2022, r.randint(1, 12), r.randint(1, 28), r.randint(0, 23), r.randint(0, 59), r.randint(0, 59)),
             title=r.choice([None, 'title', 'T 2']), subject=r.choice([None, 'subj']), revision=r.choice([None, '1.0']),
             keywords=r.choice([None, 'k1 k2']), unitname=unit[0], unitmeter=unit[1], upaxis=r.choice([None, 'X_UP', 'Y_UP', 'Z_UP']),
-            contributors=contributors)
+            **(dict(contributors=contributors) if contributors else {}))    # optional list arguments are left out when empty
         for _ in range(r.randint(0, 2)):
             doc.images.append(self.image())
         for _ in range(r.randint(0, self.o['effects'])):
@@ -127,12 +129,7 @@ class Gen(object):
             # scalars are Python floats written in full: long mantissas, tiny and huge magnitudes
             return r.choice([r.uniform(0, 100), round(r.uniform(0, 100), r.randint(5, 9)), r.uniform(0, 1) * 10 ** r.randint(-12, 12), 12.345678, 1e-07, 123456789.125])
         kw = {}
-        allowed = {
-            'phong': ['emission', 'ambient', 'diffuse', 'specular', 'shininess', 'reflective', 'reflectivity', 'transparent', 'transparency', 'index_of_refraction'],
-            'blinn': ['emission', 'ambient', 'diffuse', 'specular', 'shininess', 'reflective', 'reflectivity', 'transparent', 'transparency', 'index_of_refraction'],
-            'lambert': ['emission', 'ambient', 'diffuse', 'reflective', 'reflectivity', 'transparent', 'transparency', 'index_of_refraction'],
-            'constant': ['emission', 'reflective', 'reflectivity', 'transparent', 'transparency', 'index_of_refraction'],
-        }[shading]
+        allowed = SHADER_PARAMS[shading]
         for prop in material.Effect.supported:
             if self.o['schema'] and prop not in allowed:
                 kw[prop] = None
@@ -291,7 +288,8 @@ class Gen(object):
                 if self.o['schema']:
                     seen = set()
                     mats = [m for m in mats if not (m.symbol in seen or seen.add(m.symbol))]
-                groups[k].append(scene.GeometryNode(r.choice(list(self.doc.geometries)), mats))
+                g = r.choice(list(self.doc.geometries))
+                groups[k].append(scene.GeometryNode(g, mats) if mats else scene.GeometryNode(g))
             elif k == 'light' and self.doc.lights:
                 groups[k].append(scene.LightNode(r.choice(list(self.doc.lights))))
             elif k == 'inode' and libnodes:
@@ -302,7 +300,12 @@ class Gen(object):
         if not self.o['schema']:
             r.shuffle(children)
         nid = self.uid('node')
-        return scene.Node(nid, children=children, transforms=transforms, name=r.choice([None, 'n_' + nid, nid]))
+        kw = dict(name=r.choice([None, 'n_' + nid, nid]))
+        if children:
+            kw['children'] = children
+        if transforms:
+            kw['transforms'] = transforms
+        return scene.Node(nid, **kw)
 
     def scene(self):
         from collada import scene
@@ -325,7 +328,24 @@ class Gen(object):
                 tf.append(scene.MatrixTransform(numpy.array([1, 2, 0, 1, 0, 3, 1, -2, 0, 0, 0.5, 4, 0, 0, 0, 1], dtype=numpy.float32)))
             kids = [scene.LightNode(l) for l in self.doc.lights] + [scene.CameraNode(c) for c in self.doc.cameras]
             nodes.insert(r.randint(0, len(nodes)), scene.Node(self.uid('rig'), children=kids, transforms=tf[:r.randint(1, len(tf))]))
+        if self.o.get('rig'):
+            # one library node that holds geometry, instantiated at several places: the same Node object is visited once per instance
+            parts = [n for n in self.doc.nodes if any(type(c).__name__ == 'GeometryNode' for c in n.children)]
+            if parts and r.random() < 0.6:
+                part = r.choice(parts)
+                for k in range(r.randint(2, 3)):
+                    nodes.append(scene.Node(self.uid('place'), children=[scene.NodeNode(part)],
+                                            transforms=[scene.TranslateTransform(float(5 * k - 5), float(k), float(r.randint(-2, 2)))]))
         return scene.Scene(self.uid('scene'), nodes)
+
+
+# the parameters the schema gives each shader element ("shader-specific parameters" are the user's to respect)
+SHADER_PARAMS = {
+    'phong': ['emission', 'ambient', 'diffuse', 'specular', 'shininess', 'reflective', 'reflectivity', 'transparent', 'transparency', 'index_of_refraction'],
+    'blinn': ['emission', 'ambient', 'diffuse', 'specular', 'shininess', 'reflective', 'reflectivity', 'transparent', 'transparency', 'index_of_refraction'],
+    'lambert': ['emission', 'ambient', 'diffuse', 'reflective', 'reflectivity', 'transparent', 'transparency', 'index_of_refraction'],
+    'constant': ['emission', 'reflective', 'reflectivity', 'transparent', 'transparency', 'index_of_refraction'],
+}
 
 
 def build(seed, opts=None):
